@@ -31,7 +31,7 @@ from segvc.unit import FunctionUnit, LoopSpec
 IT = "anyio/itertools.py"
 FN = "anyio/functools.py"
 SRC = DequeT(OBJ)  # the source iterator: what is still to come
-register_class("GenOut", {"out": ArrT(INT, OBJ), "n": INT, "pos": ArrT(INT, INT)}, kind="env")
+register_class("GenOut", {"out": ArrT(INT, OBJ), "n": INT, "pos": ArrT(INT, INT), "rank": ArrT(INT, INT)}, kind="env")
 OUT = z3.Int("generator_output")
 APP = z3.Function("APP", z3.IntSort(), z3.IntSort(), z3.IntSort())  # the binary callback
 APP1 = z3.Function("APP1", z3.IntSort(), z3.IntSort())  # a unary callback (starmap on the element)
@@ -74,6 +74,8 @@ class IterUnit(FunctionUnit):
             "Iterable": ClassVal("Iterable"),
             "AsyncIterator": ClassVal("AsyncIterator"),
             "T": None,
+            "Any": ClassVal("Any"),
+            "cast": Builtin("cast", lambda ip, ty, v: v),
         }
 
     # -- the abstract source ------------------------------------------------------------------------------------------
@@ -157,7 +159,7 @@ class IterUnit(FunctionUnit):
     def after_resume(self, ip, what, payload):
         # A-private-iterator: the source, the output record and the local state are this generator's own
         h, b = H(ip.st), self.before
-        for key in [(SRC.cls, "lo"), (SRC.cls, "hi"), (SRC.cls, "data"), ("GenOut", "out"), ("GenOut", "n")]:
+        for key in [(SRC.cls, "lo"), (SRC.cls, "hi"), (SRC.cls, "data"), ("GenOut", "out"), ("GenOut", "n"), ("GenOut", "pos"), ("GenOut", "rank")]:
             ip.st.assume(h.arr(*key) == b.arr(*key))
         ip.st.assume(h.arr("$", "alloc") == b.arr("$", "alloc"))
 
@@ -399,7 +401,7 @@ def filterfalse_loop_inv(ip, env):
                 u.out_inv_common(h),
                 out_n(h) == CNT(i),
                 ey == (out_n(h) > 0),
-                forall([j], z3.Implies(z3.And(0 <= j, j < out_n(h)), z3.And(0 <= pos_at(h, j), pos_at(h, j) < i, z3.Not(PRED(u.x(pos_at(h, j)))), out_at(h, j) == u.x(pos_at(h, j)), z3.Implies(j > 0, pos_at(h, j - 1) < pos_at(h, j)))), patterns=[out_at(h, j)]),
+                forall([j], z3.Implies(z3.And(0 <= j, j < out_n(h)), z3.And(0 <= pos_at(h, j), pos_at(h, j) < i, z3.Not(PRED(u.x(pos_at(h, j)))), out_at(h, j) == u.x(pos_at(h, j)), z3.Implies(j > 0, pos_at(h, j - 1) < pos_at(h, j)))), patterns=[out_at(h, j), pos_at(h, j)]),
             ),
         ),
     ]
@@ -435,7 +437,7 @@ class FilterfalseUnit(GenUnit):
             return
         ip.ctx.oblige(
             f"{nm}/post:yields_a_strictly_increasing_selection_of_the_rejected_elements_as_many_as_there_are",
-            z3.And(out_n(h) == CNT(n), forall([j], z3.Implies(z3.And(0 <= j, j < out_n(h)), z3.And(0 <= pos_at(h, j), pos_at(h, j) < n, z3.Not(PRED(self.x(pos_at(h, j)))), out_at(h, j) == self.x(pos_at(h, j)), z3.Implies(j > 0, pos_at(h, j - 1) < pos_at(h, j)))), patterns=[out_at(h, j)])),
+            z3.And(out_n(h) == CNT(n), forall([j], z3.Implies(z3.And(0 <= j, j < out_n(h)), z3.And(0 <= pos_at(h, j), pos_at(h, j) < n, z3.Not(PRED(self.x(pos_at(h, j)))), out_at(h, j) == self.x(pos_at(h, j)), z3.Implies(j > 0, pos_at(h, j - 1) < pos_at(h, j)))), patterns=[out_at(h, j), pos_at(h, j)])),
             "post",
         )
 
@@ -478,7 +480,252 @@ class PairwiseUnit(GenUnit):
         ip.ctx.oblige(f"{nm}/post:yields_exactly_the_adjacent_pairs_in_order", z3.And(out_n(h) == z3.If(n >= 1, n - 1, 0), forall([j], z3.Implies(z3.And(0 <= j, j < out_n(h)), out_at(h, j) == PAIR(self.x(j), self.x(j + 1))), patterns=[out_at(h, j)])), "post")
 
 
-UNITS = [ReduceUnit, ReduceAsyncUnit, AccumulateUnit, AccumulateAsyncUnit, TakewhileUnit, DropwhileUnit, FilterfalseUnit, PairwiseUnit]
+# repeat / count -----------------------------------------------------------------------------------------------------------
+
+
+def all_out_are(h, v):
+    j = z3.Int(h.st.uniq("j"))
+    return forall([j], z3.Implies(z3.And(0 <= j, j < out_n(h)), out_at(h, j) == v), patterns=[out_at(h, j)])
+
+
+def repeat_forever_inv(ip, env):
+    u = ip.ctx.unit
+    h = H(ip.st)
+    return [("every_value_yielded_so_far_is_the_element", z3.And(out_n(h) >= 0, all_out_are(h, u.element.t)))]
+
+
+def repeat_counted_inv(ip, env):
+    u = ip.ctx.unit
+    h = H(ip.st)
+    rem = ip.term(env.vars["remaining"], INT)
+    return [("the_element_was_yielded_times_minus_remaining_times", z3.And(rem >= 0, rem <= u.times.t, out_n(h) == u.times.t - rem, all_out_are(h, u.element.t)))]
+
+
+class RepeatUnit(GenUnit):
+    funcname = "repeat"
+    lo0 = None
+
+    def __init__(self):
+        super().__init__()
+        self.globals["operator"] = NS("operator", {"index": Builtin("operator.index", lambda ip, v: v)})
+
+    def make_args(self, ip):
+        self.gen_entry(ip)
+        self.element = Sym(z3.Int("element"), OBJ)
+        self.counted = ip.ctx.decide(2, "times-given") == 1
+        self.times = Sym(z3.Int("times"), INT)
+        return [self.element], ({"times": self.times} if self.counted else {})
+
+    def loop_spec(self, qualname, ordinal):
+        # a `while` loop with suspension points inside: everything may change across them (frame = None); what the
+        # generator owns is re-assumed at each resumption (A-private-iterator)
+        if ordinal == 0:
+            return LoopSpec(repeat_forever_inv, modifies=None)
+        return LoopSpec(repeat_counted_inv, modifies=None, local_types={"remaining": INT})
+
+    def on_exit(self, ip, pre, exc, ret):
+        h = H(ip.st)
+        nm = "repeat"
+        if exc is not None:
+            ip.ctx.oblige(f"{nm}/post:never_raises_by_itself", z3.BoolVal(exc.pycls is not None and exc.pycls.__name__ == "CancelledError"), "post")
+            return
+        ip.ctx.oblige(f"{nm}/post:ends_only_when_times_was_given", z3.BoolVal(self.counted), "post")
+        t = self.times.t
+        ip.ctx.oblige(f"{nm}/post:yields_the_element_exactly_max_times_0_times", z3.And(out_n(h) == z3.If(t > 0, t, 0), all_out_are(h, self.element.t)), "post")
+
+
+def count_inv(ip, env):
+    u = ip.ctx.unit
+    h = H(ip.st)
+    n = ip.term(env.vars["n"], INT)
+    j = z3.Int(ip.st.uniq("j"))
+    return [("the_jth_value_yielded_is_start_plus_j_times_step_and_n_is_the_next_one", z3.And(out_n(h) >= 0, n == u.start.t + out_n(h) * u.step.t, forall([j], z3.Implies(z3.And(0 <= j, j < out_n(h)), out_at(h, j) == u.start.t + j * u.step.t), patterns=[out_at(h, j)])))]
+
+
+class CountUnit(GenUnit):
+    funcname = "count"
+    lo0 = None
+
+    def make_args(self, ip):
+        self.gen_entry(ip)
+        self.start, self.step = Sym(z3.Int("start"), INT), Sym(z3.Int("step"), INT)
+        return [self.start, self.step], {}
+
+    def loop_spec(self, qualname, ordinal):
+        return LoopSpec(count_inv, modifies=None, local_types={"n": INT, "value": INT})
+
+    def on_exit(self, ip, pre, exc, ret):
+        if exc is not None:
+            ip.ctx.oblige("count/post:never_raises_by_itself", z3.BoolVal(exc.pycls is not None and exc.pycls.__name__ == "CancelledError"), "post")
+            return
+        ip.ctx.oblige("count/post:never_ends", z3.BoolVal(False), "post")
+
+
+# islice / compress: the output is exactly the selected sub-sequence -----------------------------------------------------------
+#   ghost pos[j]  = input index of the j-th yielded value,  ghost rank[t] = output index of input element t (if selected)
+#   (S1) every yielded value is a selected input element, in strictly increasing input order
+#   (S2) every selected input element below the bound was yielded (rank is its witness)
+# S1 + S2 say: out = [x[t] for t in range(bound) if selected(t)] -- without a counting function, hence without induction.
+
+PYMOD = z3.Function("PYMOD", z3.IntSort(), z3.IntSort(), z3.IntSort())
+TRUTHY = z3.Function("TRUTHY", z3.IntSort(), z3.BoolSort())  # truthiness of an opaque object
+
+
+def rank_at(h, t):
+    return z3.Select(h.f("GenOut", "rank", OUT), t)
+
+
+def selection(u, h, bound):
+    j, t = z3.Int(h.st.uniq("j")), z3.Int(h.st.uniq("t"))
+    s1 = forall([j], z3.Implies(z3.And(0 <= j, j < out_n(h)), z3.And(0 <= pos_at(h, j), pos_at(h, j) < bound, u.selected(pos_at(h, j)), out_at(h, j) == u.x(pos_at(h, j)), z3.Implies(j > 0, pos_at(h, j - 1) < pos_at(h, j)))), patterns=[out_at(h, j), pos_at(h, j)])
+    s2 = forall([t], z3.Implies(z3.And(0 <= t, t < bound, u.selected(t)), z3.And(0 <= rank_at(h, t), rank_at(h, t) < out_n(h), pos_at(h, rank_at(h, t)) == t)), patterns=[rank_at(h, t)])
+    return z3.And(out_n(h) >= 0, s1, s2)
+
+
+class SelectionUnit(GenUnit):
+    def consumed_of(self, h):
+        return h.dq(SRC.cls, self.src.t).lo - self.lo0
+
+    def do_yield(self, ip, v):
+        st = ip.st
+        n = st.get("GenOut", "n", OUT)
+        t = self.consumed_of(H(st)) - 1  # the element consumed last
+        st.put("GenOut", "pos", OUT, z3.Store(st.get("GenOut", "pos", OUT), n, t))
+        st.put("GenOut", "rank", OUT, z3.Store(st.get("GenOut", "rank", OUT), t, n))
+        return super().do_yield(ip, v)
+
+    def exit_common(self, ip, exc, nm):
+        if exc is not None and exc.pycls is not None and exc.pycls.__name__ == "CancelledError":
+            return True
+        return False
+
+
+def islice_inv(ip, env):
+    u = ip.ctx.unit
+    h = H(ip.st)
+    i = u.consumed_of(h)
+    index = ip.term(env.vars["index"], INT)
+    ey = ip.truth(env.vars["element_yielded"])
+    ey = z3.BoolVal(ey) if isinstance(ey, bool) else ey
+    return [("index_counts_the_elements_consumed_and_exactly_the_selected_ones_among_them_were_yielded", z3.And(index == i, i >= 0, i <= u.n, u.b is None or i <= u.b, src_unchanged(u, h), ey == (out_n(h) > 0), selection(u, h, i)))]
+
+
+MAXSIZE = 2**63 - 1
+
+
+class IsliceUnit(SelectionUnit):
+    funcname = "islice"
+
+    def __init__(self):
+        super().__init__()
+        self.globals["operator"] = NS("operator", {"index": Builtin("operator.index", lambda ip, v: v)})
+        self.globals["sys"] = NS("sys", {"maxsize": MAXSIZE})
+        self.globals["slice"] = Builtin("slice", lambda ip, *a: NS("slice", dict(zip(("start", "stop", "step"), (None, a[0], None) if len(a) == 1 else (tuple(a) + (None,))[:3]))))
+
+    def make_args(self, ip):
+        self.new_source(ip)
+        self.gen_entry(ip)
+        self.nargs = ip.ctx.decide(5, "number-of-slice-arguments")
+        vals = []
+        for k in range(self.nargs):
+            if ip.ctx.decide(2, f"argument-{k}-is-None") == 1:
+                vals.append(None)
+            else:
+                vals.append(Sym(z3.Int(f"slice_argument_{k}"), INT))
+        self.vals = vals
+        start, stop, step = (None, None, None)
+        if self.nargs == 1:
+            stop = vals[0]
+        elif self.nargs in (2, 3):
+            start, stop, step = (vals + [None])[:3]
+        self.given = (start, stop, step)
+        self.a = start.t if start is not None else z3.IntVal(0)
+        self.b = stop.t if stop is not None else None
+        self.c = step.t if step is not None else z3.IntVal(1)
+        return [self.src] + vals, {}
+
+    def selected(self, t):
+        if self.given[2] is None:  # step 1: every index from start on (x % 1 == 0 is a tautology)
+            return t >= self.a
+        return z3.And(t >= self.a, PYMOD(t - self.a, self.c) == 0)
+
+    def mod_term(self, a, b):
+        # Python's `%` for a positive divisor, left uninterpreted: the specification is stated with the same operator
+        return a % b if z3.is_int_value(b) else PYMOD(a, b)
+
+    def loop_spec(self, qualname, ordinal):
+        return LoopSpec(islice_inv, modifies=None, local_types={"index": INT, "element_yielded": BOOL, "element": OBJ})
+
+    def on_exit(self, ip, pre, exc, ret):
+        h = H(ip.st)
+        nm = "islice"
+        if self.exit_common(ip, exc, nm):
+            return
+        start, stop, step = self.given
+        bad = lambda v: z3.Or(v.t < 0, v.t > MAXSIZE)
+        invalid = z3.Or(*([bad(v) for v in (start, stop) if v is not None] + ([z3.Or(step.t < 1, step.t > MAXSIZE)] if step is not None else []) + [z3.BoolVal(False)]))
+        if exc is not None:
+            name = exc.pycls.__name__ if exc.pycls is not None else "sym"
+            if name == "TypeError":
+                ip.ctx.oblige(f"{nm}/post:TypeError_exactly_for_a_wrong_number_of_arguments", z3.BoolVal(self.nargs in (0, 4)), "post")
+            else:
+                ip.ctx.oblige(f"{nm}/post:ValueError_exactly_for_a_negative_index_or_a_step_below_one", z3.And(z3.BoolVal(name == "ValueError" and self.nargs in (1, 2, 3)), invalid), "post")
+            return
+        ip.ctx.oblige(f"{nm}/post:ends_normally_only_with_valid_arguments", z3.And(z3.BoolVal(self.nargs in (1, 2, 3)), z3.Not(invalid)), "post")
+        n = self.n
+        m = n if self.b is None else z3.If(self.b < n, self.b, n)
+        ip.ctx.oblige(f"{nm}/post:yields_exactly_the_elements_at_start_start_plus_step_and_so_on_below_stop_in_order", selection(self, h, m), "post")
+        ip.ctx.oblige(f"{nm}/post:consumes_no_element_beyond_stop", z3.And(self.consumed_of(h) <= m, src_unchanged(self, h)), "post")
+
+
+def compress_inv(ip, env):
+    u = ip.ctx.unit
+    h = H(ip.st)
+    i = u.consumed_of(h)
+    si = h.dq(SRC.cls, u.sel.t).lo - u.slo0
+    ey = ip.truth(env.vars["element_yielded"])
+    ey = z3.BoolVal(ey) if isinstance(ey, bool) else ey
+    sd = h.dq(SRC.cls, u.sel.t)
+    return [("data_and_selectors_advance_together_and_exactly_the_selected_data_were_yielded", z3.And(i == si, i >= 0, i <= u.n, i <= u.shi0 - u.slo0, src_unchanged(u, h), sd.hi == u.shi0, sd.data == u.sdata0, ey == (out_n(h) > 0), selection(u, h, i)))]
+
+
+class CompressUnit(SelectionUnit):
+    funcname = "compress"
+
+    def make_args(self, ip):
+        self.new_source(ip, "selectors")
+        self.sel, self.slo0, self.shi0, self.sdata0 = self.src, self.lo0, self.hi0, self.data0
+        self.new_source(ip, "data")
+        ip.st.assume(self.sel.t != self.src.t)
+        self.gen_entry(ip)
+        return [self.src, self.sel], {}
+
+    def selected(self, t):
+        return TRUTHY(z3.Select(self.sdata0, self.slo0 + t))
+
+    def take(self, ip, it, stop):
+        v = super().take(ip, it, stop)
+        if it.t.eq(self.sel.t):
+            return Sym(TRUTHY(v.t), BOOL)  # a selector is only ever tested for truth
+        return v
+
+    def loop_spec(self, qualname, ordinal):
+        return LoopSpec(compress_inv, modifies=None, local_types={"element_yielded": BOOL, "datum": OBJ, "selector": BOOL})
+
+    def on_exit(self, ip, pre, exc, ret):
+        h = H(ip.st)
+        nm = "compress"
+        if self.exit_common(ip, exc, nm):
+            return
+        if exc is not None:
+            ip.ctx.oblige(f"{nm}/post:never_raises_by_itself", z3.BoolVal(False), "post")
+            return
+        n, ns = self.n, self.shi0 - self.slo0
+        m = z3.If(ns < n, ns, n)
+        ip.ctx.oblige(f"{nm}/post:yields_exactly_the_data_whose_selector_is_true_up_to_the_shorter_input_in_order", selection(self, h, m), "post")
+
+
+UNITS = [ReduceUnit, ReduceAsyncUnit, AccumulateUnit, AccumulateAsyncUnit, TakewhileUnit, DropwhileUnit, FilterfalseUnit, PairwiseUnit, RepeatUnit, CountUnit, IsliceUnit, CompressUnit]
 
 
 # ---- tee: _TeeState.fill (the only place the shared source is consumed) ------------------------------------------------
@@ -634,3 +881,83 @@ class TeeFillUnit(MethodUnit):
 
 
 UNITS += [TeeFillUnit]
+
+
+# ---- the sync -> async adaptor: every generator above consumes its input through it -------------------------------------------
+
+register_class("_IterableAsyncIterator", {"iterator": SRC}, source=(IT, "_IterableAsyncIterator"))
+
+
+class AdaptorNextUnit(MethodUnit):
+    """_IterableAsyncIterator.__anext__: hands out the wrapped iterator's next element (exactly one `next` per call),
+    StopAsyncIteration exactly when it is exhausted, and a cancellation (possible only at the first checkpoint) does
+    not consume an element."""
+
+    props = ("C19",)
+    spec = ClassSpec("_IterableAsyncIterator")
+    method = "__anext__"
+    contract = None
+    trusted = ("E1", "A-private-iterator")
+
+    def props_of(self, name):
+        return {"C19"}
+
+    def __init__(self):
+        super().__init__()
+        unit = self
+        self.globals = {
+            "next": Builtin("next", lambda ip, it: unit.take(ip, it)),
+            "checkpoint_if_cancelled": Builtin("checkpoint_if_cancelled", lambda ip: AwaitableVal("checkpoint")),
+            "cancel_shielded_checkpoint": Builtin("cancel_shielded_checkpoint", lambda ip: AwaitableVal("cancel_shielded_checkpoint")),
+        }
+
+    def take(self, ip, it):
+        st, cn = ip.st, SRC.cls
+        self.takes += 1
+        lo, hi = st.get(cn, "lo", it.t), st.get(cn, "hi", it.t)
+        if ip.ctx.branch(lo < hi, "source-has-more"):
+            v = z3.Select(st.get(cn, "data", it.t), lo)
+            st.put(cn, "lo", it.t, lo + 1)
+            return Sym(v, OBJ)
+        raise PyExc(ExcVal(StopIteration, ()))
+
+    def assume_state(self, ip):
+        h = H(ip.st)
+        it = h.f("_IterableAsyncIterator", "iterator", self.self_val.t)
+        d = h.dq(SRC.cls, it)
+        ip.st.assume(z3.And(it > 0, ip.st.allocated(it), 0 <= d.lo, d.lo <= d.hi))
+
+    def on_entry(self, ip, pre, a):
+        self.takes = 0
+        self.pre = pre
+
+    def resume_assumptions(self, ip, what, payload):
+        h, b = H(ip.st), self.before
+        s = self.self_val.t
+        ip.st.assume(h.f("_IterableAsyncIterator", "iterator", s) == b.f("_IterableAsyncIterator", "iterator", s))
+        it = h.f("_IterableAsyncIterator", "iterator", s)
+        d, db = h.dq(SRC.cls, it), b.dq(SRC.cls, it)
+        ip.st.assume(z3.And(ip.st.allocated(it), d.lo == db.lo, d.hi == db.hi, d.data == db.data))
+
+    def on_exit(self, ip, pre, a, exc, ret):
+        post = H(ip.st)
+        nm = "_IterableAsyncIterator.__anext__"
+        s = a.self
+        it = pre.f("_IterableAsyncIterator", "iterator", s)
+        d0, d1 = pre.dq(SRC.cls, it), post.dq(SRC.cls, it)
+        same = z3.And(post.f("_IterableAsyncIterator", "iterator", s) == it, d1.hi == d0.hi, d1.data == d0.data)
+        if exc is not None:
+            name = exc.pycls.__name__ if exc.pycls is not None else "sym"
+            if name == "CancelledError":
+                # exc.tag: the cancellation comes from a cancel scope (anyio's); a foreign Task.cancel() that lands on the
+                # shielded checkpoint after the element was taken (E8) is outside anyio's control
+                by_scope = exc.tag if getattr(exc, "tag", None) is not None else z3.BoolVal(True)
+                ip.ctx.oblige(f"{nm}/post:a_cancellation_by_a_cancel_scope_consumes_no_element", z3.Implies(by_scope, z3.And(same, d1.lo == d0.lo, z3.BoolVal(self.takes == 0))), "post")
+                ip.ctx.oblige(f"{nm}/post:a_cancellation_leaves_the_iterator_otherwise_intact", z3.And(same, d1.lo >= d0.lo, d1.lo <= d0.lo + 1), "post")
+            else:
+                ip.ctx.oblige(f"{nm}/post:StopAsyncIteration_exactly_when_the_iterator_is_exhausted", z3.And(z3.BoolVal(name == "StopAsyncIteration"), same, d0.lo == d0.hi, d1.lo == d0.lo), "post")
+            return
+        ip.ctx.oblige(f"{nm}/post:returns_the_next_element_and_consumes_exactly_it", z3.And(same, d0.lo < d0.hi, ip.term(ret, OBJ) == z3.Select(d0.data, d0.lo), d1.lo == d0.lo + 1, z3.BoolVal(self.takes == 1)), "post")
+
+
+UNITS += [AdaptorNextUnit]
